@@ -1,5 +1,6 @@
 import OvniModel.Emu.View
 import OvniModel.Lemmas.BayMux
+import OvniModel.Lemmas.BayTrack
 
 /-!
 # C06 — view consistency: the tracking muxes compute `thView` / `cpuView`
@@ -175,5 +176,147 @@ theorem dirtyPhase_fuel_sufficient {b : Bay} (wf : b.WF) (extra : Nat) :
 theorem propChan_fuel_sufficient {b : Bay} (wf : b.WF) (c extra : Nat) :
     b.propChan (b.chanFuel c + extra) c 0 = b.propChan (b.chanFuel c) c 0 :=
   Bay.propChan_fuel c _ _ b 0 wf (by unfold Bay.chanFuel; omega) (by unfold Bay.chanFuel; omega)
+
+
+/-! ### The thread and CPU tracks compute `thView` / `cpuView` -/
+
+/-- Shape of the mux `track_connect_thread` builds for mode RUN / ACT: select
+    = the thread's state channel, one input = the raw model channel, default
+    null, select function by mode. -/
+structure ThreadTrack (m : Mux) (mode S R : Nat) : Prop where
+  modeOk : mode = trackRun ∨ mode = trackAct
+  selEq : m.sel = S
+  inputsEq : m.inputs = [some R]
+  dfltEq : m.dflt = .null
+  kindEq : m.kind = if mode = trackRun then .thRunning else .thActive
+
+/-- A thread track in sync shows the channel's current top exactly while the
+    tracking mode holds for the thread state, else null. -/
+theorem thread_view_of_sync {strong : Bool} {b : Bay} {mi : Nat} {m : Mux} {mode S R : Nat}
+    (ht : ThreadTrack m mode S R) (hsync : b.MuxSync strong mi m)
+    (st : ThState) (hst : StateChan (b.chan S).cur st) :
+    (b.chan m.out).cur = if trackHolds mode st then (b.chan R).cur else .null := by
+  obtain ⟨_, s, h1, _, _, h4⟩ := hsync
+  rw [ht.selEq, selectInput_track m mode ht.modeOk ht.kindEq (by rw [ht.inputsEq]; rfl) _ st hst] at h1
+  cases h1
+  rcases h4 with h4 | ⟨_, _, _, _, hf⟩
+  · rw [h4]
+    split
+    · simp [Bay.specVal, ht.inputsEq]
+    · simp [Bay.specVal, ht.dfltEq]
+  · exact hf.elim
+
+/-- **track_thread_view**.  For a thread's model channel tracked RUN or ACT:
+    from a state in sync, after ANY event — writes to the state channel and/or
+    the model channel (push, pop, set) and to anything else, in any order —
+    followed by `bay_propagate`, the track output equals the definition of
+    `thView`: the channel's current top if the mode holds for the NEW state,
+    else null. -/
+theorem track_thread_view {strong : Bool} {b b1 bF : Bay} {em : List (Nat × Value)} {mi : Nat} {m : Mux}
+    {mode S R : Nat} (ht : ThreadTrack m mode S R)
+    (wf : b.WF) (hm : b.muxes[mi]? = some m) (hfr : b.Frame mi m) (hsync : b.MuxSync strong mi m)
+    (hw : Bay.Writes (· ≠ m.out) b b1) (h : b1.propagate = .ok (bF, em))
+    (st : ThState) (hst : StateChan (bF.chan S).cur st) :
+    (bF.chan m.out).cur = if trackHolds mode st then (bF.chan R).cur else .null :=
+  thread_view_of_sync ht (mux_round_event wf hm hfr hsync hw h).2.2.2.1 st hst
+
+/-- The same, phrased with the reference emulator's `thView`: if the bay's
+    state channel and raw channel mirror thread `t`'s state and channel `i` of
+    model `ms`, the thread row is `thView t ms i`. -/
+theorem track_thread_thView {strong : Bool} {b : Bay} {mi : Nat} {m : Mux} {S R : Nat}
+    (t : Thread) (ms : ModelSpec) (i : Nat) (cs : List Chan)
+    (ht : ThreadTrack m (ms.thTrack.getD i 0) S R) (hsync : b.MuxSync strong mi m)
+    (hcs : t.getChans ms.char = some cs)
+    (hst : StateChan (b.chan S).cur t.state) (hR : (b.chan R).cur = (cs.getD i {}).cur) :
+    (b.chan m.out).cur = thView t ms i := by
+  rw [thread_view_of_sync ht hsync t.state hst, thView, hcs, hR]
+
+/-- Mode ANY: `track_th_input_chan` aliases the raw channel, which is `thView`
+    for that mode (`trackHolds trackAny _ = true`). -/
+theorem track_any_thView {b b' : Bay} {sel inp out : Nat}
+    (h : b.trackThread trackAny sel inp = .ok (b', out))
+    (t : Thread) (ms : ModelSpec) (i : Nat) (cs : List Chan) (hmode : ms.thTrack.getD i 0 = trackAny)
+    (hcs : t.getChans ms.char = some cs) (b2 : Bay) (hR : (b2.chan inp).cur = (cs.getD i {}).cur) :
+    out = inp ∧ (b2.chan out).cur = thView t ms i := by
+  have : out = inp := by
+    unfold Bay.trackThread at h
+    simp at h
+    exact h.2.symm
+  subst this
+  refine ⟨rfl, ?_⟩
+  rw [thView, hcs, hmode, hR]; simp [trackHolds]
+
+/-- Shape of the mux `connect_cpu` builds for one CPU and model channel:
+    select = the CPU's `th_running` channel, default select function, input `g` =
+    raw model channel of the thread with global index `g`. -/
+structure CpuTrack (m : Mux) (S : Nat) (rs : List Nat) : Prop where
+  selEq : m.sel = S
+  inputsEq : m.inputs = rs.map some
+  kindEq : m.kind = .byIndex
+
+/-- A CPU track in sync shows the raw value of the thread named by
+    `th_running`, or the mux default when `th_running` is null. -/
+theorem cpu_view_of_sync {strong : Bool} {b : Bay} {mi : Nat} {m : Mux} {S : Nat} {rs : List Nat}
+    (hc : CpuTrack m S rs) (hsync : b.MuxSync strong mi m) :
+    (b.chan m.out).cur =
+      match (b.chan S).cur with
+      | .null => m.dflt
+      | .int g => (b.chan (rs.getD g.toNat 0)).cur := by
+  obtain ⟨_, s, h1, _, _, h4⟩ := hsync
+  rcases h4 with h4 | ⟨_, _, _, _, hf⟩
+  · rw [h4, ← hc.selEq]
+    cases hv : (b.chan m.sel).cur with
+    | null => rw [hv, selectInput_null] at h1; cases h1; rfl
+    | int g =>
+      rw [hv] at h1
+      obtain ⟨_, hlt, rfl⟩ := selectInput_index m hc.kindEq g s h1
+      rw [hc.inputsEq, List.length_map] at hlt
+      simp only [Bay.specVal, hc.inputsEq]
+      rw [List.getElem?_map, List.getElem?_eq_getElem hlt]
+      simp [List.getD_eq_getElem?_getD, List.getElem?_eq_getElem hlt]
+  · exact hf.elim
+
+/-- **track_cpu_view**.  For the CPU mux of one model channel: from a state in
+    sync, after ANY event — `th_running` changes (state or affinity change) and
+    any thread's raw channel changes, in the same event, in any order — followed
+    by `bay_propagate`, the output is the raw value of the thread selected by
+    `th_running`, or the default. -/
+theorem track_cpu_view {strong : Bool} {b b1 bF : Bay} {em : List (Nat × Value)} {mi : Nat} {m : Mux}
+    {S : Nat} {rs : List Nat} (hc : CpuTrack m S rs)
+    (wf : b.WF) (hm : b.muxes[mi]? = some m) (hfr : b.Frame mi m) (hsync : b.MuxSync strong mi m)
+    (hw : Bay.Writes (· ≠ m.out) b b1) (h : b1.propagate = .ok (bF, em)) :
+    (bF.chan m.out).cur =
+      match (bF.chan S).cur with
+      | .null => m.dflt
+      | .int g => (bF.chan (rs.getD g.toNat 0)).cur :=
+  cpu_view_of_sync hc (mux_round_event wf hm hfr hsync hw h).2.2.2.1
+
+/-- The same, phrased with the reference emulator's `cpuView`: if `th_running`
+    mirrors the CPU's channel, input `g` mirrors channel `i` of thread `g`, and
+    the mux default is the model's idle default, the CPU row is `cpuView`. -/
+theorem track_cpu_cpuView {strong : Bool} {b : Bay} {mi : Nat} {m : Mux} {S : Nat} {rs : List Nat}
+    (e : Emu) (c : Cpu) (ms : ModelSpec) (i : Nat)
+    (hc : CpuTrack m S rs) (hsync : b.MuxSync strong mi m)
+    (hS : (b.chan S).cur = c.chThrun.cur) (hlen : rs.length = e.threads.length)
+    (hR : ∀ (g : Nat) (t : Thread), e.threads[g]? = some t →
+      ∃ cs, t.getChans ms.char = some cs ∧ (b.chan (rs.getD g 0)).cur = (cs.getD i {}).cur)
+    (hd : m.dflt = match ms.cpuDefault.find? (·.1 == i) with
+      | some (_, v) => .int v
+      | none => .null) :
+    (b.chan m.out).cur = cpuView e c ms i := by
+  have hsel := hsync.2
+  rw [cpu_view_of_sync hc hsync, cpuView, cpuSelected, ← hS]
+  cases hv : (b.chan S).cur with
+  | null => simp only; exact hd
+  | int g =>
+    obtain ⟨s, h1, _⟩ := hsel
+    rw [hc.selEq, hv] at h1
+    obtain ⟨hg0, hlt, _⟩ := selectInput_index m hc.kindEq g s h1
+    rw [hc.inputsEq, List.length_map, hlen] at hlt
+    have hng : ¬ g < 0 := by omega
+    simp only [hng, if_false]
+    obtain ⟨cs, hcs, hcur⟩ := hR g.toNat e.threads[g.toNat] (List.getElem?_eq_getElem hlt)
+    rw [List.getElem?_eq_getElem hlt]
+    simp only [hcs, hcur]
 
 end Ovni.Props.C06
